@@ -26,9 +26,9 @@ CHECKS["C12"] = dict(cat=MC, engine="E1 xsched, environment-only form (segmentat
    note="Trusts: the in-memory stream (one segment per poll_read). Not covered: all subsets of cuts for messages longer than 14 (thorough 18) bytes.",
    ref="DESIGN.md §3 C12")
 CHECKS["C05"] = dict(cat=MC, engine="E2 xseq (bounded-exhaustive input enumeration on the real decoders under catch_unwind) + E4 real binary (process-level liveness)",
-   technique="bounded-exhaustive enumeration of byte strings, header grids, datagram sequences and upstream replies on the real decoders; oracle: returns within a poll budget, never panics",
-   text="Every (id,total,seq) fragment header, all 2-(thorough 3-)datagram sequences over a 98-header alphabet, a structured RPFM header/attribute grid through the stream reader / from_buffer / fragment layer with every truncation, the SOCKS-UDP header grid, all byte strings up to length 5 (thorough 6) over 12-symbol alphabets for the HTTP and SOCKS decoders, every single-byte substitution/deletion of every valid message, 25 request heads through the real h11c_handshake and 22 upstream replies x feature x channel through the real h11c_connect. Real binary (panic=abort): malformed heads / negotiations / frames / upstream replies on every listener, disconnects (FIN and RST) at every byte offset of the http, socks5 and socks4 handshakes, stalled clients, junk datagrams on the UDP/QUIC ports, and RLIMIT_NOFILE=64 with 240 idle connections; after each batch the process must be alive and every listener and the API must still serve.",
-   note="A caught panic stands for a process abort (panic='abort'). Trusts the harness profile (overflow checks on). Not covered: TPROXY, memory exhaustion through unbounded read_line/read_until, QUIC transport-parameter abuse.",
+   technique="bounded-exhaustive enumeration of byte strings, header grids, datagram sequences and upstream replies on the real decoders, plus never-ending inputs for every terminator-delimited field; oracle: returns within a poll budget, never panics, never buffers without bound",
+   text="Every (id,total,seq) fragment header, all 2-(thorough 3-)datagram sequences over a 98-header alphabet, a structured RPFM header/attribute grid through the stream reader / from_buffer / fragment layer with every truncation, the SOCKS-UDP header grid, all byte strings up to length 5 (thorough 6) over 12-symbol alphabets for the HTTP and SOCKS decoders, every single-byte substitution/deletion of every valid message, 25 request heads through the real h11c_handshake and 22 upstream replies x feature x channel through the real h11c_connect; each of the 11 terminator-delimited fields (request/status line, header line/value/count, SOCKS4 user id, SOCKS4a host) is fed a never-ending input and must be given up within 1 MiB. Real binary (panic=abort): malformed heads / negotiations / frames / upstream replies on every listener, disconnects (FIN and RST) at every byte offset of the http, socks5 and socks4 handshakes, stalled clients, junk datagrams on the UDP/QUIC ports, RLIMIT_NOFILE=64 with 240 idle connections, and 8 never-ending fields (client and upstream side) against a process limited to 768 MiB of data; after each batch the process must be alive and every listener and the API must still serve.",
+   note="A caught panic stands for a process abort (panic='abort'). Trusts the harness profile (overflow checks on). Not covered: TPROXY, memory exhaustion by many connections each within its bounds, QUIC transport-parameter abuse.",
    ref="DESIGN.md §3 C05")
 CHECKS["C03"] = dict(cat=MC, engine="E2 xseq (bounded-exhaustive destination grid through the real codecs)",
    technique="exhaustive destination grid (host length x hostile byte x position, IPs, ports) through every real inbound decoder and outbound encoder; outputs parsed by an independent strict reference decoder and by the repo's own decoder",
